@@ -9,8 +9,12 @@ import (
 	"sync/atomic"
 	"time"
 
+	"crypto/tls"
+	"crypto/x509"
+	"crypto/x509/pkix"
 	exserver "github.com/cybergarage/go-redis/examples/go-redisd/server"
 	"github.com/cybergarage/go-redis/redis"
+	"github.com/cybergarage/go-redis/redis/auth"
 )
 
 type connCase struct {
@@ -22,8 +26,11 @@ type connCase struct {
 	conns   int
 	steps   [][2]string // (conn index, op)
 	trace   bool
-	example bool // the bundled example store is the handler (no double)
-	par     bool // each connection's steps run in their own goroutine (free interleaving)
+	example bool     // the bundled example store is the handler (no double)
+	par     bool     // each connection's steps run in their own goroutine (free interleaving)
+	tls     []string // per connection: p = plain; n = TLS without client certificate; c<hex> = TLS with that leaf common name
+	rule    string
+	hasRule bool
 }
 
 func parseCase(line string) connCase {
@@ -63,6 +70,13 @@ func parseCase(line string) connCase {
 			c.example = v == "example"
 		case "par":
 			c.par = v == "1"
+		case "tls": // per connection, comma separated: p = plain, n = TLS without client certificate, c<hex> = TLS, leaf common name
+			c.tls = strings.Split(v, ",")
+		case "rule": // the common name a client certificate must carry (certificate authenticator)
+			if v != "-" {
+				c.rule = string(unhx(v))
+				c.hasRule = true
+			}
 		case "steps":
 			if v != "-" {
 				for _, s := range strings.Split(v, ";") {
@@ -94,6 +108,9 @@ func runConnCase(c connCase) string {
 	srv.SetPort(0)
 	if c.hasPw {
 		srv.SetRequirePass(c.pw)
+	}
+	if c.hasRule {
+		srv.AddAuthenticator(auth.NewCertificateAuthenticatorWith(auth.WithCommonName(c.rule)))
 	}
 	d := &double{table: c.table, def: c.def, srv: srv}
 	if !c.example {
@@ -148,7 +165,7 @@ func runConnCase(c connCase) string {
 				}
 				r.done <- res
 			}()
-			srv.VerifServeConn(r.pc, nil)
+			srv.VerifServeConn(r.pc, tlsStateOf(c.tls, i))
 		}()
 	}
 	waitQuiet := func(r *connRun) bool { // blocked on Read with nothing pending, or returned
@@ -206,6 +223,17 @@ func runConnCase(c connCase) string {
 		case 's': // the client stops reading; s<n>: n more bytes fit into the socket buffers
 			n, _ := strconv.Atoi(op[1:])
 			r.pc.stallWrites(n)
+		case 'S': // Server.Stop while the connections are in whatever state the script left them: it must return
+			done := make(chan error, 1)
+			go func() { done <- srv.Stop() }()
+			select {
+			case <-done:
+				r.log.add("STOP-RET")
+			case <-time.After(stepTimeout):
+				r.log.add("!STOP-HANG")
+				r.log.add("!HANG")
+				atomic.StoreInt32(&hangFlag, 1)
+			}
 		case 'u': // the client reads again
 			r.pc.resumeWrites()
 			if !waitQuiet(r) {
@@ -287,6 +315,19 @@ func runConnCase(c connCase) string {
 	}
 	sb.WriteString(fmt.Sprintf(";;final=%d", nconns))
 	return sb.String()
+}
+
+// tlsStateOf: the TLS connection state a scripted connection is served with (nil = plain TCP).  The handshake itself is not
+// part of the scripted runs (C09 runs real handshakes); this is the state `receive` is handed after it.
+func tlsStateOf(spec []string, i int) *tls.ConnectionState {
+	if i >= len(spec) || spec[i] == "" || spec[i] == "p" {
+		return nil
+	}
+	st := &tls.ConnectionState{HandshakeComplete: true}
+	if spec[i][0] == 'c' {
+		st.PeerCertificates = []*x509.Certificate{{Subject: pkix.Name{CommonName: string(unhx(spec[i][1:]))}}}
+	}
+	return st
 }
 
 // modeConn: one case per line; out "<idx> <observation>"
